@@ -107,6 +107,9 @@ def helper_case(rng: random.Random, cuts: dict, base: dict | None = None) -> dic
             "max_turns": 200000,
             "_msgs": msgs,
         }
+        if rng.random() < 0.15:
+            # a responder whose handshake message carries a payload (legal in Noise; the ESPHome firmware sends none)
+            base["device"]["noise_hs_payload"] = bytes(rng.getrandbits(8) for _ in range(pick(rng, [1, 2, 16, 100]))).hex()
         rest = msgs[len(msgs) // 2 :] if base["device"]["on_handshake"] else msgs
         t = 0.5
         while rest:
@@ -131,12 +134,20 @@ class C03(CheckBase):
 
     def cases(self, rng: random.Random, tier: str, idx: int) -> Iterable[dict]:
         r = idx % 6
+        if idx % 160 == 7:
+            # a long session: more messages than a 16-bit counter holds (the inbound nonce is a 64-bit counter)
+            base = helper_case(rng, {"mode": "coalesce"})
+            base["device"]["on_handshake"] = []
+            base["events"] = [{"at": {"t": 0.5 + 0.01 * k}, "do": "dev", "act": {"msgs": [{"type": pick(rng, [1, 26, 300]), "payload_gen": [pick(rng, [0, 1, 3]), k]}], "repeat": 8250, "latency": 0.0}} for k in range(8)]
+            base["max_turns"] = 400000
+            yield base
+            return
         if r in (0, 1):
             # every single cut of the server hello + handshake bytes (and a little beyond)
             base = helper_case(rng, {"mode": "coalesce"})
             nm = base["device"]["noise_name"].encode() if base["device"]["noise_hello_name"] else b""
             hello_len = 3 + 1 + (len(nm) + 1 + 12 + 1 if base["device"]["noise_hello_name"] else 0)
-            hs_len = 3 + 1 + 48
+            hs_len = 3 + 1 + 48 + len(base["device"].get("noise_hs_payload", "")) // 2
             for k in range(1, hello_len + hs_len + 12):
                 yield helper_case(rng, {"mode": "at", "at": [k]}, base)
         elif r in (2, 3):
@@ -157,7 +168,7 @@ class C03(CheckBase):
                 "knobs": gen_knobs(rng),
                 "expected_name": exp,
                 "client": client,
-                "device": {"transport": "noise", "psk": psk, "eph_seed": "%x" % rng.getrandbits(32), "noise_name": name, "name": name, "hello": {"name": name}},
+                "device": {"transport": "noise", "psk": psk, "eph_seed": "%x" % rng.getrandbits(32), "noise_name": name, "name": name, "hello": {"name": name}, **({"noise_hs_payload": "00" * pick(rng, [1, 7, 64])} if rng.random() < 0.1 else {})},
                 "net": {"cuts": pick(rng, [{"mode": "sizes", "sizes": sizes}, {"mode": "coalesce"}, {"mode": "sizes", "sizes": [1]}]), "d2c_latency": [0.0, 0.001], "c2d_latency": pick(rng, [0.0, 0.001])},
                 "actors": [{"id": "a0", "at": {"t": 0.0}, "steps": [{"do": "connect", "login": True}, {"do": "subscribe_states"}, {"do": "sleep", "d": 3.0}, {"do": "disconnect"}]}],
                 "events": [{"at": {"t": 1.0}, "do": "dev", "act": {"msgs": msgs, "latency": 0.0}}],
@@ -174,7 +185,14 @@ class C03(CheckBase):
             if any(ix.pp.values()):
                 out.append(Violation("delivered-after-bad-name", "", "a packet was delivered although the server name was rejected"))
             return out
-        return noise_ready_oracle(ix, scn) + delivered_equals_complete(ix)
+        out = noise_ready_oracle(ix, scn) + delivered_equals_complete(ix)
+        if scn["family"] == "framing" and not any(v.rule in ("handshake-failed", "name-check") for v in out):
+            # helper-level runs: nobody closes anything and the responder is conformant - no fatal error, no exception
+            for c, fl in ix.fatal.items():
+                out.append(Violation("spurious-error", fl[0][1]["cls"], f"conformant encrypted stream reported fatal error {fl[0][1]['cls']}: {fl[0][1]['text']}"))
+            if ix.loop_exceptions:
+                out.append(Violation("spurious-error", "exception", f"exception escaped data_received: {ix.loop_exceptions[0][1]}"))
+        return out
 
     distinct_key = C01.distinct_key
 
